@@ -1,13 +1,13 @@
 #!/usr/bin/env python3
 """Run the registered check(s) against a seeded change the prescribed way and record the result under /verif/seeded/:
    git -C /repo apply <patch>;  ./check <PROP> --tier quick  (from /verif, against /repo itself);  git -C /repo checkout -- .
-usage: seed_record.py <ID> <mN> [CHECK ...]       (reads /tmp/mut/<ID>/_out/<mN>; default check = <ID>)"""
+usage: seed_record.py <ID> <mN> [CHECK ...]       (reads /tmp/seed/out/<ID>/<mN>; default check = <ID>)"""
 import json, os, shutil, subprocess, sys, time
 
 pid, m = sys.argv[1], sys.argv[2]
 checks = sys.argv[3:] or [pid]
-md = "%s/%s/_out/%s" % (os.environ.get("SEED_ROOT", "/tmp/mut"), pid, m)
-dest = "/verif/seeded/%s-%s%s" % (pid, "r2" if "mut2" in os.environ.get("SEED_ROOT", "") else "", m)
+md = "%s/out/%s/%s" % (os.environ.get("SEED_ROOT", "/tmp/seed"), pid, m)
+dest = "/verif/seeded/%s-%s" % (pid, m)
 
 
 def sh(cmd, cwd=None, timeout=7200):
